@@ -13,11 +13,11 @@ from vp.core.engine import HarnessError, Obligation, Property, derive_seed
 from vp.gen import pzenvs as pz
 from vp.gen import pzoracle as po
 
-CALL_BOUND_S = 15.0     # every single call returns within this (about 50x the expected time) - "without hanging"
-CLOSE_SLACK_S = 5.0     # close() returns within longest injected sleep + this
+CALL_BOUND_S = 30.0    # every single call returns within this (about 50x the expected time) - "without hanging"
+CLOSE_SLACK_S = 20.0    # close() returns within longest injected sleep + this
 SLEEP_S = 1.5           # "sleeps past the timeout"
 TIMEOUT_S = 0.25        # the timeout handed to *_wait at the faulting call when a worker sleeps
-WATCHDOG_S = 120.0
+WATCHDOG_S = 240.0
 N_ENVS = 3
 ROUND = ["reset", "step", "call", "set_attr", "step"]
 EXCS = ["ValueError", "RuntimeError", "KeyError", "ZeroDivisionError", "ScriptedEnvError"]
